@@ -614,8 +614,48 @@ def run(ctx):
     asserts = [bi for bi in vsb.reachable() if vsb.term[bi] and vsb.term[bi]['k'] == 'call' and (callee_of(vsb.term[bi]) or '').endswith(('panicking::panic', 'panicking::panic_fmt', 'panicking::assert_failed')) and 'IndexVec' not in (vsb.term[bi].get('x') or '')]
     ctx.ob('R09.17', 'validate_submit|no assertion on client data', not asserts, 'validate_submit refuses, it does not assert', vsb.loc(asserts[0]) if asserts else vsb.loc())
     iav = prog.body('hyperqueue::common::arraydef::IntArray::validate')
-    ctx.ob('R09.17', 'IntArray::validate|step, overflow, duplicates', bool(iav.call_blocks(lambda c: c.endswith('checked_add'))) and any((c or '').endswith(('Set::insert', 'HashSet::insert')) for p_ in prog.with_closures(iav.path) for bi, t, c in prog.bodies[p_].calls()),
+    iav_bodies = [iav] + [prog.bodies[c_] for c_ in prog.may_call(iav.path) if c_ in prog.bodies and c_.startswith('hyperqueue::common::arraydef::')]
+    ctx.ob('R09.17', 'IntArray::validate|step, overflow, duplicates', any(b_.call_blocks(lambda c: c.endswith('checked_add')) for b_ in iav_bodies) and any((c or '').endswith(('Set::insert', 'HashSet::insert')) for p_ in prog.with_closures(iav.path) for bi, t, c in prog.bodies[p_].calls()),
            'IntArray::validate checks the step, the end of every range (checked_add) and the uniqueness of the ids (a set)', iav.loc())
+
+    # ---- R09.18 the id selectors of every client request are validated before dispatch
+    ctx.rule('R09.18', 'client_rpc_loop validates every incoming message (FromClientMessage::validate: the ranges of its IdSelector / TaskSelector arrays have a non-zero step and do not overflow) before any handler is reached; the validation matches every message kind explicitly (no wildcard that would let a new kind with a selector through)')
+    crl18 = [prog.bodies[p_] for p_ in prog.with_closures(HQ + 'client::client_rpc_loop') if prog.bodies[p_].kind == 'coroutine']
+    ctx.require(crl18, 'R09.18: client_rpc_loop coroutine')
+    cb18 = max(crl18, key=lambda b_: b_.n)
+    FCM = 'hyperqueue::transfer::messages::FromClientMessage'
+    val18 = cb18.call_blocks(FCM + '::validate')
+    handlers = [bi for bi, t, c in cb18.calls() if bi in cb18.reachable() and (c or '').startswith(HQ + 'client::') and ('::handle_' in (c or '') or (c or '').endswith(('compute_job_info', 'compute_job_detail')))]
+    ctx.floor('R09.18', len(handlers), 8, 'handler calls in client_rpc_loop')
+    hs18 = loop_headers_containing(cb18, handlers[0])
+    ctx.ob('R09.18', 'client_rpc_loop|message validated before dispatch', bool(val18) and all(x not in cb18.reach_from(hs18[:1] or [0], avoid=val18) for x in handlers),
+           'FromClientMessage::validate dominates every handler call in each iteration of the receive loop', cb18.loc(val18[0]) if val18 else cb18.loc(handlers[0]))
+    if val18:
+        vb18 = prog.body(FCM + '::validate')
+        sws = [bi for bi in vb18.reachable() if (vb18.switch_info(bi) or {}).get('kind') == 'discr' and vb18.switch_info(bi)['enum'] == FCM]
+        exh = False
+        for sb in sws[:1]:
+            t_ = vb18.term[sb]
+            other = vb18.term[t_['o']]
+            exh = len(t_['ts']) == len(prog.variants(FCM)) and other and other['k'] == 'unreach'
+        ctx.ob('R09.18', 'FromClientMessage::validate|every message kind matched explicitly', exh, f'the validation has an explicit arm for each of the {len(prog.variants(FCM))} message kinds', vb18.loc())
+        ctx.ob('R09.18', 'FromClientMessage::validate|checks the ranges', bool(effect_blocks(prog, vb18, Effect('validate_ranges', callees={'hyperqueue::common::arraydef::IntArray::validate_ranges', 'hyperqueue::common::arraydef::IntArray::validate'}))), 'selectors are checked with IntArray::validate_ranges', vb18.loc())
+
+    # ---- R09.19 a vector used as WorkerResources has one slot per resource id
+    ctx.rule('R09.19', 'scheduler gap computation: the amounts that become a WorkerResources (indexed by resource id everywhere) are produced one per resource id (iter_amounts().enumerate()); WorkerResources::iter_pairs skips zero entries, a vector collected from it is shorter and shifted for a worker that lacks a resource between two of its own (index out of bounds in GapCache::get_gap, wrong gap otherwise)')
+    cgr = prog.body(T + 'scheduler::gap::compute_gap_resources')
+    WRN = [bi for bi, t, c in cgr.calls() if bi in cgr.reachable() and (c or '').endswith('WorkerResources::new')]
+    ctx.floor('R09.19', len(WRN), 1, 'WorkerResources::new in compute_gap_resources')
+    nres = 0
+    for wb in WRN:
+        l_ = op_local(cgr.term[wb]['args'][0])
+        feeders = {(callee_of(d_[2]) or '') for x_ in (cgr.derived_from(l_, through_mutation=False) if l_ is not None else ()) for d_ in cgr.defs().get(x_, ()) if d_[1] == 'call'}
+        if not any(c_.endswith(('Iterator::collect', 'iter_amounts', 'iter_pairs')) for c_ in feeders):
+            continue       # the empty early-return vector
+        nres += 1
+        ctx.ob('R09.19', 'compute_gap_resources|dense vector', any(c_.endswith('WorkerResources::iter_amounts') for c_ in feeders) and not any(c_.endswith('WorkerResources::iter_pairs') for c_ in feeders),
+               'the gap vector is collected over iter_amounts() (one element per resource id), not over iter_pairs() (non-zero entries only)', cgr.loc(wb))
+    ctx.floor('R09.19', nres, 1, 'collected gap vectors')
 
 
 def _variant_can_return(b, enum, k, v):
